@@ -257,11 +257,20 @@ FullAtAddPart(c, pn) == /\ HasAddPart(c, pn)
                            /\ {a.registered[i] : i \in 1..Len(a.registered)} = ShardsOfC(c)
                            /\ \A sh \in ShardsOfC(c) : ~HasReadDrop(sh, pn, a.nreads)
 SeekGiven == "seek_ts" \in DOMAIN Params /\ Params.seek_ts > 0
+\* "an object CDC was already replicating": the collection is (re)started from a persisted checkpoint - a seek position was
+\* handed to StartReadCollection, whether or not it carries a time (a checkpoint written at task creation has none)
+HadCkpt(c) == SeekGiven \/ \E k \in 1..Len(starts) : starts[k].c = c.name /\ starts[k].nseek > 0
+\* known finding C04_synth_untimed_ckpt: the drop message of a collection dropped while CDC was down is generated at the
+\* seek position of the channel handler and only if that position carries a time; when no collection on the source
+\* channel(s) was started from a timed checkpoint the drop is never delivered
+TimedHandler(c) == SeekGiven \/ \E k \in 1..Len(starts) : \E i \in 1..Len(starts[k].seeks) :
+                                    starts[k].seeks[i].ts > 0 /\ starts[k].seeks[i].ch \in DOMAIN c.bypch
+SynthDue(c) == DroppedAtStart(c) /\ HadCkpt(c) /\ (KFOn("C04_synth_untimed_ckpt") => TimedHandler(c))
 Delivered ==
     drained =>
       \A ci \in 1..Len(Catalog) : LET c == Catalog[ci] IN
-        (~Stopped(c) /\ ((\E r \in 1..Len(reads) : reads[r].s \in ShardsOfC(c)) \/ (DroppedAtStart(c) /\ SeekGiven))) =>
-          /\ ((NoError /\ ((DroppedAtStart(c) /\ SeekGiven) \/ \A s \in ShardsOfC(c) : HasReadDrop(s, "", Len(reads)))) => NDrops("DropCollection", c.name, "") = 1)
+        (~Stopped(c) /\ ((\E r \in 1..Len(reads) : reads[r].s \in ShardsOfC(c)) \/ SynthDue(c))) =>
+          /\ ((NoError /\ (SynthDue(c) \/ \A s \in ShardsOfC(c) : HasReadDrop(s, "", Len(reads)))) => NDrops("DropCollection", c.name, "") = 1)
           /\ \A pn \in DOMAIN c.parts :
                 ((NoError \/ FullAtAddPart(c, pn)) /\ (\A s \in ShardsOfC(c) : HasReadDrop(s, pn, Len(reads))) /\ NDrops("DropCollection", c.name, "") = 0)
                    => NDrops("DropPartition", c.name, pn) = 1
@@ -317,7 +326,8 @@ TStep ==
        /\ evs' = evs \o [i \in 1..Len(e.evs) |-> e.evs[i] @@ [at |-> Len(outs), nreads |-> Len(reads), step |-> l]]
        /\ stops' = IF e.op = "stop" THEN Append(stops, [c |-> e.c, step |-> l]) ELSE stops
        /\ addparts' = IF e.op = "addpart" /\ ~e.err THEN Append(addparts, [c |-> e.c, p |-> e.p, registered |-> e.registered, nreads |-> Len(reads), step |-> l]) ELSE addparts
-       /\ starts' = IF e.op = "start" THEN Append(starts, [c |-> e.c, step |-> l]) ELSE starts
+       /\ starts' = IF e.op = "start" THEN Append(starts, [c |-> e.c, step |-> l, nseek |-> IF "seeks" \in DOMAIN e THEN Len(e.seeks) ELSE 0,
+                                                                seeks |-> IF "seeks" \in DOMAIN e THEN e.seeks ELSE <<>>]) ELSE starts
        /\ drained' = (drained \/ e.op = "drain")
        /\ cfeeds' = IF e.op = "feed" /\ e.res = "closed"
                       THEN Append(cfeeds, [s |-> e.s, nreads |-> Len(reads), nevs |-> Len(evs), step |-> l]) ELSE cfeeds
@@ -340,6 +350,10 @@ TStep ==
          \cup (IF KFOn("C04_partition_barrier_size") /\ P("C04") /\ l = Len(Traces[tr].events)
                   /\ (\E i \in 1..Len(evs) : IsDropP(evs[i]) /\ ~AfterAllShards(evs[i], TRUE))'
                  THEN {"C04_partition_barrier_size"} ELSE {})
+         \cup (IF KFOn("C04_synth_untimed_ckpt") /\ P("C04") /\ l = Len(Traces[tr].events)
+                  /\ (\E ci \in 1..Len(Catalog) : DroppedAtStart(Catalog[ci]) /\ HadCkpt(Catalog[ci]) /\ ~TimedHandler(Catalog[ci])
+                                                     /\ NDrops("DropCollection", Catalog[ci].name, "") = 0)'
+                 THEN {"C04_synth_untimed_ckpt"} ELSE {})
          \cup (IF KFOn("C01_tickonly_forward_order") /\ P("C01") /\ l = Len(Traces[tr].events) /\ ~ReadOrder(outs', reads', TRUE)
                  THEN {"C01_tickonly_forward_order"} ELSE {})
     /\ (Diag => PrintT("AT " \o ToString(Traces[tr].plan) \o " " \o ToString(l)))
